@@ -67,7 +67,7 @@ package context
 //@   opt locks=release
 //@   opt go=frame-only
 //@   modifies nothing
-//@   requires p != nil && heldr(p.lock)
+//@   requires p != nil && heldr(p.lock) && cancel != nil
 //@   requires chdone[p.closed] <==> p.pool == nil
 //@   loop 0 invariant p == old(p) && heldr(p.lock) && 0 <= i
 //@   loop 0 invariant [C20.watch.inv] chdone[p.closed] || (i <= len(p.pool) && (forall j :: 0 <= j && j < i ==> chdone[p.pool[j]]))
